@@ -987,17 +987,37 @@ func c05Regions(o c05Opts, f *syntax.File) []string {
 		}
 		return cmdEndsBare(s.Cmd)
 	}
-	anyBare, anyYComs := false, false
+	anyBare, anyYComs, anyInline := false, false, false
 	syntax.Walk(f, func(n syntax.Node) bool {
 		switch n := n.(type) {
 		case *syntax.BinaryCmd:
 			if len(n.Y.Comments) > 0 {
 				anyYComs = true
 			}
-			if o.single && len(n.Y.Comments) > 0 && !n.Y.Comments[0].Pos().After(n.Y.Pos()) &&
-				len(c05CommentsOf(reflect.ValueOf(n.Y))) > len(n.Y.Comments) {
-				// printed on one line, Y.Comments is queued after Y: behind the comments inside Y
-				set("single-ycomments-after-nested")
+			if len(n.Y.Comments) > 0 && len(c05CommentsOf(reflect.ValueOf(n.Y))) > len(n.Y.Comments) {
+				after := false
+				for _, c := range n.Y.Comments {
+					if c.Pos().After(n.Y.Pos()) {
+						after = true
+					}
+				}
+				if o.single || after {
+					// printed on one line, Y.Comments is queued after Y: behind the comments inside Y
+					set("ycomments-after-nested")
+				}
+			}
+		case *syntax.CmdSubst:
+			if n.Backquotes && len(n.Stmts) == 0 && len(n.Last) == 1 {
+				anyInline = true
+			}
+		case *syntax.Redirect:
+			if n.Hdoc != nil {
+				for _, c := range c05CommentsOf(reflect.ValueOf(n.Hdoc)) {
+					if c.offs < n.Hdoc.Pos().Offset() {
+						// parser: a comment in front of the body is attached inside its first substitution
+						set("comment-attached-into-heredoc-body")
+					}
+				}
 			}
 		case *syntax.Stmt:
 			if n.Cmd != nil && cmdEndsBare(n.Cmd) {
@@ -1045,6 +1065,10 @@ func c05Regions(o c05Opts, f *syntax.File) []string {
 		}
 		return true
 	})
+	if o.single && anyInline && anyYComs {
+		// SingleLine keeps Y.Comments pending behind Y; an inline backquote comment is written at once
+		set("single-inline-backquote-overtakes")
+	}
 	if o.single && anyBare && anyYComs {
 		// SingleLine queues Y.Comments after Y; they may be flushed right after a bare coproc/time
 		set("comment-after-bare-time-coproc")
